@@ -219,6 +219,9 @@ pub enum TrackerStep {
     Http(u16),
     Garbage(Vec<u8>),
     Failure(String),
+    /// failure reason together with a peers list (must be treated as a failure: nobody listed
+    /// there may be contacted)
+    FailureWithPeers(String),
     /// well-formed reply without a `peers` key
     NoPeers,
     /// good reply listing the named peers (by PeerPlan.name) plus raw malformed entries
